@@ -478,12 +478,34 @@ def job_case(old, new):
         _JOB_DEV["args"] = env.deploy_options(entire_reload=cli_args.EntireReloadFlag("yes"))
     dev = _JOB_DEV["dev"]
     res = OldNewResult(device=dev, old=odict(), new=odict(), acl_rules=None, old_files={}, new_files={}, partial_result=[],
-                       entire_result=[], old_json_fragment_files={PATH: R.clone(old)},
+                       entire_result=[], old_json_fragment_files={PATH: (None if old is None else R.clone(old))},
                        new_json_fragment_files={PATH: (R.clone(new), "reload-x")}, json_fragment_result={}, implicit_rules=None,
                        perf={}, acl_safe_rules=None, safe_old=odict(), safe_new=odict(), safe_new_files={},
                        safe_new_json_fragment_files={}, filter_acl_rules=None)
     job = api.DeployerJob.from_device(dev, _JOB_DEV["args"])
     txt = "old=%s new=%s" % (json.dumps(old), json.dumps(new))
+    if old is None:
+        # the file does not exist on the device yet (annet.gen hands None for it): the patch that is uploaded must build the
+        # generated document out of nothing - judged by applying it, as the receiving side does (apply_patch(None, patch))
+        try:
+            job.parse_result(res)
+        except Exception as e:  # noqa
+            viol.append(({"kind": "job-absent-file", "what": "exception", "exc": type(e).__name__}, "%s: %s: %s" % (txt, type(e).__name__, e)))
+            return viol
+        entry = job.deploy_cmds.get(dev)
+        if entry is None or set(entry["files"]) != {PATH}:
+            viol.append(({"kind": "job-absent-file", "what": "not-queued"}, "%s queued=%r" % (txt, entry and entry["files"])))
+            return viol
+        try:
+            got = json.loads(jt.apply_patch(None, entry["files"][PATH]))
+        except Exception as e:  # noqa
+            viol.append(({"kind": "job-absent-file", "what": "uploaded patch does not apply to a missing file", "exc": type(e).__name__},
+                         "%s patch=%r: %s: %s" % (txt, entry["files"][PATH], type(e).__name__, e)))
+            return viol
+        if not R.same_value(got, new):
+            viol.append(({"kind": "job-absent-file", "what": "uploaded patch builds another document"},
+                         "%s patch=%r gives %s" % (txt, entry["files"][PATH], json.dumps(got))))
+        return viol
     try:
         job.parse_result(res)
         want = jt.format_json(jt.make_patch(R.clone(old), R.clone(new))).encode()
@@ -689,6 +711,7 @@ def run_block(block, ctx):
                     if res[1] and len(ctx.samples) < 2 and len(acl) == 2:
                         ctx.sample(dict(case, outcome=res[0]))
         else:
+            absent_done = set()
             for old, new in prs:
                 if ctx.expired():
                     return
@@ -696,6 +719,12 @@ def run_block(block, ctx):
                 res = patch_case(old, new)
                 res[2].extend(job_case(old, new))
                 _account(ctx, *res, case)
+                k = json.dumps(new, sort_keys=True)
+                if k not in absent_done:
+                    # the same generated document for a file the device does not have yet
+                    absent_done.add(k)
+                    va = job_case(None, new)
+                    _account(ctx, "P:absent-file" + (":viol" if va else ""), True, va, 2, {}, {"part": "P", "old": None, "new": new, "absent": 1})
                 if res[1] and len(ctx.samples) < 2 and res[0].startswith("P:2"):
                     ctx.sample(dict(case, outcome=res[0]))
     elif part == "A":
@@ -743,6 +772,8 @@ def replay(case):
     part = case["part"]
     if part == "F":
         res = fragment_case(case["old"], case["frag"], case["acl"])
+    elif part == "P" and case.get("absent"):
+        res = ("P:absent-file", True, job_case(None, case["new"]))
     elif part == "P":
         res = patch_case(case["old"], case["new"])
         res[2].extend(job_case(case["old"], case["new"]))
